@@ -249,6 +249,9 @@ def canonical_events(rr):
             if rec["ok"] != "1" and rec.get("deepest"):
                 ev["made"] = pcomps(rec["deepest"])      # a failed create_dir_all may have created some ancestors
             emit(rec, ev)
+        elif k == "fsop":
+            # a mutating std::fs function the tool does not use today (remove_*, rename, copy, hard_link, create_dir, write)
+            emit(rec, {"t": "mut", "op": "other", "name": rec["name"], "path": pcomps(rec["path"]), "ok": int(rec["ok"] == "1")})
         elif k == "piece_begin":
             key = rec["piece"]
             order.append(key)
@@ -292,6 +295,8 @@ def event_line(ev):
         if not ev["ok"] and ev.get("made") is not None:
             return "mut mkdirp %s %s" % (penc(ev["path"]), penc(ev["made"]))
         return "mut mkdir %s %d" % (penc(ev["path"]), ev["ok"])
+    if op == "other":
+        return "mut other %s %s %d" % (ev["name"], penc(ev["path"]), ev["ok"])      # no such operation in the model: the validator refuses it
     if op == "openw":
         return "mut openw %s %d %d %d" % (penc(ev["path"]), ev["c"], ev["tr"], ev["ok"])
     if op == "setlen":
